@@ -6,9 +6,14 @@ exact membership of the Origin in the comma-split configuration, grants = config
 The same oracle judges the Access-Control-* headers of whole responses of the server entry points
 (serve mode of the harness, one process per configuration), and those responses are compared with the composed server model -
 the tie of the server-level theorems in RwsProofs/C11Server.lean.
-Input classes added by the generator audit: vlib/gen_c11.py (table: audit/C11/AUDIT.md)."""
-import itertools, unicodedata, threading
+Input classes added by the generator audit: vlib/gen_c11.py (table: audit/C11/AUDIT.md).
+Second audit pass (audit/C11/AUDIT2.md): feature-style classes - `codec_cases2` / `feature_plan` of vlib/gen_c11.py; props/c11_features.py reads the bytes the
+peer received as a STREAM of answers and judges every one of them (interim answers, the answer to a second request of the same read) with the same `want_get`.
+VERIF_C11_PASS=1 runs the check without the second pass; VERIF_C11_TRUNCATED=1 adds the inputs of the finding reported there (an Origin header cut by the end of
+the request buffer is taken for the whole header) - they fail on the unchanged code and are therefore not in the default run."""
+import itertools, unicodedata, threading, os
 from vlib import common as C, gen_c11 as X
+from props import c11_features as F2
 
 DRIVERS = ['Cors', 'Serve']   # model driver files this check runs: scopes translator failures to the tables they (and the proofs) import
 TRUSTED = ['Rust std: env::var (Err for absent or non-Unicode), str::parse::<bool>, str::split, Vec::contains, [String]::join (modelled in Rws.Cors)',
@@ -17,7 +22,9 @@ TRUSTED = ['Rust std: env::var (Err for absent or non-Unicode), str::parse::<boo
 ASSUMPTIONS = ['protocol glue: hex fields, environment rendering name=value, Cors struct rendering',
                'environment values hold no NUL byte and names no "=" (cannot exist in a process environment)',
                'independent oracle: Python str.split / list membership; str.lower() only for strings over ASCII + a fixed pool of pre-Unicode-14 characters',
-               'whole responses: requests are well formed with header values the request parser leaves unchanged (no edge blanks, no control characters), so the Origin the server sees is the Origin sent']
+               'whole responses: requests are well formed with header values the request parser leaves unchanged (no edge blanks, no control characters), so the Origin the server sees is the Origin sent',
+               'second pass, stream reading: the bodies of that campaign (its own files, the server\'s pages and error texts) hold no status line, so every `HTTP/1.x ddd ` in the received bytes starts an answer; '
+               'optional white space (blank, tab) around the Origin value is not part of the value (RFC 9110): such a request earns at most what the stripped value earns']
 
 V = {k: 'RWS_CONFIG_CORS_' + k for k in ['ALLOW_ALL', 'ALLOW_ORIGINS', 'ALLOW_CREDENTIALS', 'ALLOW_HEADERS', 'ALLOW_METHODS', 'EXPOSE_HEADERS', 'MAX_AGE']}
 H = dict(o='Access-Control-Allow-Origin', c='Access-Control-Allow-Credentials', m='Access-Control-Allow-Methods',
@@ -240,6 +247,12 @@ def run(res, tier, seed):
     plan = X.server_plan(rng.fork('server'), tier)
     th = threading.Thread(target=lambda: server_out.__setitem__('r', run_server(plan)))
     th.start()
+    # second audit pass (audit/C11/AUDIT2.md): feature-style classes at server level, the received bytes judged as a stream of answers
+    stream_out = {}
+    second = os.environ.get('VERIF_C11_PASS', '2') != '1'          # VERIF_C11_PASS=1: the check as it was before the second pass (to see what a change escapes without it)
+    plan2 = X.feature_plan(rng.fork('features'), tier) if second else []
+    th2 = threading.Thread(target=lambda: stream_out.__setitem__('r', F2.run_plan(plan2)))
+    th2.start()
     lines, meta = [], []          # meta: (entry, want, class)
     def add(line, entry, want, cls):
         lines.append(line); meta.append((entry, want, cls))
@@ -395,6 +408,7 @@ def run(res, tier, seed):
     E.get, E.proc, E.allow_all = staticmethod(get), staticmethod(proc), staticmethod(allow_all)
     n_audit0 = len(lines)
     X.codec_cases(rng.fork('audit'), tier, E)
+    if second: X.codec_cases2(rng.fork('audit2'), tier, E)
     n_audit = len(lines) - n_audit0
     # 5c. the observation point the property names first: the Access-Control-* headers of whole responses of the server entry points
     #     (Server::process, Server::process_request, App::execute, App::handle_request) under a configuration: started at the top of `run`
@@ -432,12 +446,26 @@ def run(res, tier, seed):
                 'non-Unicode, misnamed (12 near-miss names, also next to the right name) or blank; the shipped configuration values; '
                 f'whole responses of Server::process / process_request / App::execute / handle_request under {len(plan)} configurations (implementation only, same oracle): exactly the expected '
                 'Access-Control-* headers on every status path (200, 204, 206, multipart, 400, 404, 416), none on answers built without the request unless the request earns them; '
-                'a case is non-trivial when the request has an Origin header; distinct = distinct protocol lines')
+                + (f'second generator audit (audit/C11/AUDIT2.md; vlib/gen_c11.py codec_cases2 / feature_plan, props/c11_features.py): configured entries written in a pattern language '
+                   '(suffix, glob, regular expression, port / scheme wildcard, bare host, CIDR, keywords) x Origins that match under it; multi-byte characters straddling every byte offset '
+                   'of the Origin, the requested method / headers, the settings, the target; an unconfigured Origin named by 24 proxy-header families, by the server\'s own address or by the '
+                   'peer\'s; no Origin header while another header names a configured origin; 103 request headers the server ignores today (conditional, range, encodings, Expect, connection '
+                   f'management, proxies, fetch metadata, method override, private network); whole responses under {len(plan2)} more processes, the RECEIVED bytes read as a stream of answers, '
+                   'each judged against the request it answers: those headers x file / sidecar / directory / missing target x Origin kind through all four entry points, file types and '
+                   'directories that "need" a blanket grant, characters at the edges of the Origin value (optional white space: at most what the stripped value earns), "Origin:" text in '
+                   'the body / a trailer / another header, histories (the same target / Origin / method / cookie with other grants before, a refused request after a granted one and the '
+                   'reverse, 100 distinct origins then the first again), two requests in one read with different Origins, Expect: 100-continue with the body sent or held back, answers '
+                   'larger than 64 KiB, write scripts that take the answer in pieces or fail, application errors; ' if second else '')
+                + 'a case is non-trivial when the request has an Origin header; distinct = distinct protocol lines')
     res.exhaustive = (f'get_headers over the finite product of switch x 0..4 origins x credentials x method x preflight x list settings x 13 Origin kinds ({n_product} cases)'
                       + ('; to_lowercase over every Unicode scalar value in four contexts' if tier == 'thorough' else ''))
     origin_hex = ':'  # a request with at least one header
     th.join()
     judge_server(res, server_out.get('r'))
+    th2.join()
+    class N: pass
+    N.want_get, N.env_field, N.GRANT_NAMES, N.b = staticmethod(want_get), staticmethod(env_field), GRANT_NAMES, staticmethod(b)
+    F2.judge(res, stream_out.get('r'), N)
     C.compare(res, lines, impl, model, 'Cors', nontrivial=lambda ln, a: '4f726967696e' in ln.lower() or '6f726967696e' in ln.lower())
     for ln, (entry, want, cls), a in zip(lines, meta, impl):
         if cls.startswith('product'):
